@@ -23,11 +23,11 @@ SCENS = ((0, "nothing contracted"), (1, "section A contracted"), (2, "section B 
 JOBS = [
   Job("c19.file.layout", "c19_file.c", "h_file_layout", replace_calls=IO,
       cbmc=["--unwind", "47", "--unwinding-assertions", "--sat-solver", "cadical"], safety=NOCONV, fuc=["dr_pi_dag_dump", "dr_read_dag"], timeout=200,
-      note="complete up to the stated file bound"),
+      note="complete for files of at most 2^48 bytes (64-bit size arithmetic / 52-bit pointer offsets do not wrap); loop-free except libc strcmp on the 45-byte version line, unwound to that constant"),
   Job("c19.strtab.flatten.bounded", "c19_file.c", "h_strtab_flatten", kind="bounded",
       replace_calls=["malloc:verif_malloc_st", "strlen:verif_strlen", "strcpy:verif_strcpy", "exit:verif_exit"],
       cbmc=["--unwind", "10", "--unwinding-assertions", "--sat-solver", "cadical"], fuc=["dr_string_table_flatten", "dr_pi_dag_set_string_table"], timeout=200,
-      note="bounded: at most 8 strings"),
+      note="bounded: at most 8 strings (any number from 0 to 8), each shorter than 4096 bytes"),
   Job("c19.edge_cmp.lemmas", "c19_edges.c", "h_edge_cmp_lemmas", replace_calls=["exit:verif_exit"], fuc=["edge_cmp"], timeout=100,
       note="complete: loop-free, all values of (u, v) and of the kinds"),
   Job("c19.set_edge_ptrs.loops", "c19_edges.c", "h_set_edge_ptrs_lc", kind="bounded", replace_calls=["exit:verif_exit"],
@@ -46,5 +46,56 @@ JOBS = [
       fuc=["dr_copy_pi_dag", "dr_pi_dag_copy_and_prune_nodes", "dr_pi_dag_enum_edges", "dr_pi_dag_set_edge_ptrs", "dr_string_table_flatten"], timeout=250,
       note="bounded: the same DAG, record-time state: %s; conversion-time setting: %s" % (what, cwhat))
   for sc, what in SCENS for cs, cwhat in ((0, "keep everything"), (1, "contract one-worker sections"), (2, "contract everything shorter than 7 clocks"))
+] + [
+  Job("c19.make.s%d.bounded" % sc, "c19_dag.c", "h_make", kind="bounded",
+      replace_calls=["malloc:verif_malloc_mk", "free:verif_free", "memset:verif_memset", "qsort:verif_qsort", "exit:verif_exit"],
+      cbmc=["--unwind", "30", "--unwinding-assertions", "--sat-solver", "cadical"], defines=["-DDAG_SCEN=%d" % sc],
+      fuc=["dr_make_pi_dag", "dr_pi_dag_enum_nodes", "dr_dag_count_nodes", "dr_copy_dag_node_1", "dr_copy_children_nodes", "dr_string_table_intern",
+           "dr_pi_dag_enum_edges", "dr_pi_dag_set_edge_ptrs", "dr_string_table_flatten"], timeout=200,
+      note="bounded: the pointer-based DAG of the same 14-node shape as the recorder leaves it, contraction state at record time: %s" % what)
+  for sc, what in SCENS
 ]
-META = {"level": "other", "assumptions": []}
+META = {
+ "level": "other",
+ "level_text": "Decided by proof (all inputs up to a stated arithmetic bound): (a) the file writer dr_pi_dag_dump and the mmap reader dr_read_dag agree on the "
+               "layout -- the reader's n, m, start_clock, num_workers are the written ones, its T, E, S point at exactly the file offsets where the writer put "
+               "T, E, S, its S->I / S->C point where the string-table builder lays out the index table and the characters, the total size written is "
+               "header_sz + n*sizeof(node) + m*sizeof(edge) + S->sz, for every n, m, string count and string-table size with a file of at most 2^48 bytes; "
+               "(b) edge_cmp is the sign of the lexicographic comparison of (u, v) over all long values (total preorder; sorted by it implies grouped by source). "
+               "Bounded (NOT counted as proved): the layout dr_string_table_flatten produces (<= 8 strings, each shorter than 4096 bytes); "
+               "dr_pi_dag_set_edge_ptrs gives every node exactly the edges whose source it is (loop contracts on its three loops; harness arrays of 4 nodes / 16 edges); "
+               "(c) on one concrete 14-node DAG in four record-time contraction states: every edge dr_pi_dag_enum_edges emits has both endpoints inside the DAG, "
+               "edges are grouped by source with exact per-node ranges, and all child / subgraph offsets produced by the recorder-side flattening dr_make_pi_dag and "
+               "by the conversion dr_copy_pi_dag (three conversion-time settings) refer to nodes inside the DAG; shrinking preserves the root's totals; "
+               "(d) dr_pi_dag_chronological_traverse makes every leaf ready, started and ended exactly once, in chronological order, and ends with nothing ready or running.",
+ "level_note": "Byte preservation by the file system and mmap is an ASSUMPTION (the ghost file keeps exactly the bytes the reader inspects). 'Dumping and reading back "
+               "yields an identical DAG' therefore means: identical counts and identical placement of T, E, S, I, C over the same bytes. libc qsort is trusted. "
+               "The general (all DAGs) forms of clauses (c) and (d) are NOT decided: they need inductive heap predicates over unbounded graphs. "
+               "Not decided at all: dag2any's command line / output formats, gen_stat / dot / gpl / text writers, dr_read_and_analyze_dag_.",
+ "trusted_base": ["cbmc 6.11.0 (goto-cc, goto-instrument --dfcc for the loop-contract job, SAT back end CaDiCaL)", "gcc -E preprocessing of the real sources",
+                  "libc qsort (sorts with respect to a comparator that is a total preorder)", "file system + mmap preserve bytes"],
+ "explanation": "contracts/c19_file.c includes the real dr_dump.c and read_dag.c. fwrite is a stub that records (offset, source, size) of each call in ghost variables; "
+                "open/read/lseek/mmap/close are stubs that serve the four counts from a ghost header and hand out a mapping address; harness assertions compare what the "
+                "reader computed with what the writer recorded (loop-free apart from strcmp on the 45-byte version line, unwound to that constant). "
+                "contracts/c19_edges.c: loop-free lemmas on the real edge_cmp; the real dr_pi_dag_set_edge_ptrs under loop contracts with witnesses (node w, edge k). "
+                "contracts/c19_dag.c includes the real dr_dump.c and chronological.c and runs dr_make_pi_dag, enum_edges + sort + set_edge_ptrs, dr_copy_pi_dag and "
+                "the chronological traverse on one concrete DAG; an observer passed as chronological_traverser counts the events per node.",
+ "assumptions": [
+   "ASSUMPTION (file system / mmap): the bytes handed to fwrite appear at the same offsets in the mapping. Implemented for the bytes the reader inspects: the first 77 bytes (version line, n, m, start_clock, num_workers) and the 32-byte string table header at the offset of the last write; every other byte of the mapping does not exist as memory in the model (a reader touching it fails a pointer obligation)",
+   "MODEL (mapping): mmap returns the address `&WIN - offset_of_last_write`, a pointer whose offset lies outside its object until the reader adds the offset of S; CBMC compares (object, offset) pairs exactly and checks dereferences only; pointer arithmetic that leaves an object is not flagged (no --pointer-overflow-check) -- T at file offset 77 is also misaligned for its type, which CBMC does not check and x86-64 tolerates",
+   "BOUND (file job, complete up to it): file size <= 2^48 bytes (n <= 2^48/432, m <= 2^48/24, string table <= 2^48 bytes): keeps the 64-bit size arithmetic and CBMC's 52-bit pointer offsets from wrapping. No other bound on n, m, S->n, S->sz",
+   "STUB fwrite (body): checks the stream, at most 8 calls, records offset / source / byte count, may return a short count (then the writer must report failure); that each source holds size*count readable bytes is NOT checked there: T, E hold n, m elements by allocation (enum_nodes / enum_edges), S holds S->sz bytes by the flatten job (S->sz == allocated size)",
+   "STUBS open (defined directly, libc's is variadic), read, lseek, mmap, close (bodies): open/read/mmap may fail or read short (then the reader must return 0); read serves only the 77 header bytes; lseek answers position queries; mmap demands the whole file from offset 0, MAP_PRIVATE and PROT_READ|PROT_WRITE (the reader patches S->I, S->C in the mapping); close must be called once on every path",
+   "STUB malloc (file job): the reader's one request returns a static dr_pi_dag; memory exhaustion is outside the property. exit() is a stub whose reachability (a failing dr_check) is an obligation; fprintf / strerror body-less; verbose_level = dbg_level = 0; chk_level nondeterministic",
+   "--conversion-check is switched off in the file job only: dr_read_dag compares the ssize_t result of read (possibly -1) with a size_t; the conversion to SIZE_MAX is defined and intended. Suggested entry for contracts/benign_obligations.txt: `C19<TAB>dr_read_dag: arithmetic overflow on signed to unsigned type conversion in \\(unsigned long int\\)r<TAB>read() == -1 compared with sizeof: defined conversion, takes the error path`",
+   "BOUND (kind=bounded) string table builder: at most 8 strings (cells of the linked list in a static array), each of any length below 4096 (PATH_MAX); strlen / strcpy are stubs (strlen returns the ghost length of the string, strcpy records the destination), malloc returns one static object and records the requested size. The intern / find / append side (duplicate detection by strcmp) runs only in the concrete DAG jobs",
+   "BOUND (kind=bounded) dr_pi_dag_set_edge_ptrs: proved with loop contracts (base + step of three invariants for arbitrary loop states), but the preconditions 'every source in [0, n)' and 'sorted by source as seen from the witness edge' are spelled out over harness arrays of 4 nodes and 16 edges, so n <= 4, m <= 16 (larger node arrays exhaust the SAT back end: 432-byte nodes with unions under --dfcc). Precondition n >= 1; with n == 0 the function would write T[-1] (a DAG always has its root). Termination of the loops is not proved (no decreases clause)",
+   "TRUSTED libc qsort: in the concrete jobs a stub (insertion sort calling the given comparator); that qsort sorts for any total preorder is the C standard's contract, and edge_cmp being one is the lemma job",
+   "BOUND (kind=bounded) clauses (c), (d), 'shrinking preserves totals': ONE concrete DAG of 14 nodes, as position-independent array in the layout of dr_pi_dag_enum_nodes (replay, conversion) and as the pointer-based DAG the recorder leaves (dr_make_pi_dag; absolute clocks 100..111, contracted sections = emptied child lists) (root task -> section A{create->c1, other, create->c2, wait}, other, section B{create->c3, wait}, end) with a concrete serial schedule of the leaves (clock 0..11), four record-time contraction states of A / B, resume kinds after the waits fixed per state (both kinds occur), two file names; work / critical path / counters / counts nondeterministic. chk_level = 1 in these jobs. Three conversion-time settings for dr_copy_pi_dag: keep everything; contract one-worker sections (collapse_max); contract everything shorter than 7 clocks (uncollapse_min); collapse_max_count = 0 (the count-based policy is not exercised)",
+   "STUBS (concrete DAG jobs): malloc serves each request from a typed static pool (planned order in the conversion / replay jobs, by size in the flattening job; stack cells and child arrays of at most 32 bytes are fresh dynamic objects there); free is a no-op (double free / leaks not decided); memset is a typed clear of one edge / of the node array",
+   "In the replay job the observer is the only function whose address matches chronological_traverser.process_event; events are compared by node index, kind and time; ties in time are broken by the real heap",
+   "NOT DECIDED (clause of the property): 'identical DAG' beyond counts and placement, i.e. the contents of T, E and of the string characters after a round trip (byte preservation is assumed, not proved); the #if 0 size cross-check in dr_read_dag; behaviour on a truncated or foreign file whose header happens to match (the reader trusts n, m and S->n)",
+   "NOT DECIDED (clause of the property): for ALL recorded executions -- offsets from dr_pi_dag_enum_nodes / dr_copy_children_nodes, endpoints from dr_pi_dag_enum_edges, 'every leaf is reachable', the chronological replay, preservation of totals by the shrinking copy: decided only on the concrete DAG above (bounded). The event queue's growth path (more than 100 pending events) and heap order with arbitrary time stamps are not exercised",
+   "NOT DECIDED: src/profiler/dag2any/dag2any.c (option parsing, output selection), gen_stat.c / dot / gpl / text generators on a re-read DAG, dr_gen_pi_dag's fopen/fclose handling, dr_destroy_pi_dag, per-worker attribution, counters interpolation",
+ ],
+}
